@@ -27,6 +27,7 @@ import ForML.Lemmas.C11Copy
 import ForML.Lemmas.C11Cycle
 import ForML.Lemmas.C11Visit
 import ForML.Lemmas.C11Exists
+import ForML.Lemmas.C11Republish
 
 namespace ForML.Graph
 
@@ -1017,6 +1018,64 @@ example :
     (step (run init ops) (.publish 0 0 1 .label)).2 = .err .double ∧
     (step (run init ops) (.publish 0 0 1 .train)).2 = .ok ∧
     AllSingle init (ops ++ [.publish 0 0 1 .train]) := by
+  decide
+
+/-! ### C11 — re-publishing is idempotent; `Future._collapse()` on published pairs is a no-op -/
+
+/-- **C11_republish_idempotent**: once `n._publish(idx, s)` (= `Publishable.republish`) has succeeded — `n` a worker
+or a placeholder with any tree of registered publishers — the same call succeeds and changes nothing in the state
+reached and in every later state with the same nodes / registrations / `_PORTS` that still holds what was published -/
+theorem C11_republish_idempotent (fuel : Nat) (g h : G) (n idx : Nat) (s : Sub)
+    (hok : (publishTo fuel g n idx s).2 = .ok) (hab : Above (publishTo fuel g n idx s).1 h) :
+    publishTo fuel h n idx s = (h, .ok) :=
+  publishTo_again fuel g n idx s h hok hab
+
+/-- **C11_publish_monotone**: `_publish` never withdraws a subscription nor touches nodes, registrations or `_PORTS`,
+whatever it answers -/
+theorem C11_publish_monotone (fuel : Nat) (g : G) (n idx : Nat) (s : Sub) :
+    Above g (publishTo fuel g n idx s).1 :=
+  publishTo_above fuel g n idx s
+
+/-- **C11_collapse_noop**: `Future._collapse()` as the code has it (re-publish *every* (registered publisher, held
+subscription) pair) raises nothing and changes nothing when every such pair has been published successfully before:
+the reason why the model's `publishTo` forwards the new subscription only -/
+theorem C11_collapse_noop (k : Nat) (g : G) (f : Nat)
+    (hpub : ∀ r ∈ g.regs, r.fut = f → ∀ s ∈ out g f r.idx,
+      ∃ g0, (publishTo k g0 r.pub r.out s).2 = .ok ∧ Above (publishTo k g0 r.pub r.out s).1 g) :
+    collapse k g f = (g, .ok) :=
+  collapse_noop k g f hpub
+
+/-- **C11_collapse_reachable**: after every call sequence — any calls, any placeholders, several publishers per
+placeholder port included — `Future._collapse()` on any node re-publishes only pairs whose publication changes
+nothing: the graph stays exactly as it is and nothing is raised (the only other answer of the model is its depth
+guard, when the fuel `k` given is smaller than the registration tree).  Together with `C11_republish_idempotent`
+this is why `publishTo` forwards the new subscription only -/
+theorem C11_collapse_reachable (ops : List Op) (f k : Nat) :
+    collapse k (run init ops) f = (run init ops, .ok) ∨
+    collapse k (run init ops) f = (run init ops, .err .recursion) := by
+  have hcl : ∀ (ops : List Op) (g : G), Wf g → Closed g → Closed (run g ops) := by
+    intro ops
+    induction ops with
+    | nil => intro g _ hc; exact hc
+    | cons op ops ih => intro g hw hc; exact ih _ (C11_wf_step g op hw) (C11_closed_step g op hw hc)
+  exact collapse_closed k _ f (C11_wf ops) (hcl ops init C11_wf_init (by intro e he; cases he))
+
+/-- the graph part of it, for every fuel -/
+theorem C11_collapse_keeps_graph (ops : List Op) (f k : Nat) :
+    (collapse k (run init ops) f).1 = run init ops := by
+  rcases C11_collapse_reachable ops f k with h | h <;> rw [h]
+
+/-- non-vacuity: a placeholder with a registered publisher and two held subscriptions (one connected before, one
+after the registration): four pairs are re-published by `_collapse()`, nothing changes; the hypothesis of
+`C11_republish_idempotent` holds of the second publish (through the placeholder) -/
+example :
+    let ops := [Op.mkWorker false 1 1, .mkFuture 1 1, .mkWorker false 1 1, .mkWorker false 1 1, .mkWorker false 1 1,
+                .subscribe 2 0 1 0, .subscribe 1 0 0 0, .subscribe 1 0 4 0, .subscribe 3 0 1 0]
+    let g := run init ops
+    ((g.regs.filter (fun r => r.fut = 1)).flatMap (fun r => (out g 1 r.idx).map (fun s => (r.pub, r.out, s)))).length = 4 ∧
+    collapse (fuelOf g) g 1 = (g, .ok) ∧
+    (publishTo (fuelOf g) (run init (ops.take 8)) 1 0 ⟨3, .apply 0⟩).2 = .ok ∧
+    (publishTo (fuelOf g) (run init (ops.take 8)) 1 0 ⟨3, .apply 0⟩).1 ≠ run init (ops.take 8) := by
   decide
 
 end ForML.Graph
